@@ -1,19 +1,22 @@
-//! C11 (std build): drives dasp_rms::Rms and the dasp_signal rms adaptor.
+//! C11: drives dasp_rms::Rms and the dasp_signal rms adaptor (std build in harness/, and the same
+//! source built against the no_std-configured crates in harness_nightly_nostd/ with cargo +nightly).
 //! `R ...` lines: see ../c11_body.rs.
-//! `A <fmt> 0 <chans> <N> <sq> <k> ; <frames flattened>`: signal adaptor over a counting
-//! source (the given frames, then equilibrium), zero window of N frames, k x next()
-//! (sq = 1: next_squared()); output `2 out-bits..` per call, then `4 <frames pulled from the source>`.
+//! `A <fmt> <nostd> <chans> <N> <sq> <k> <fin> ; <frames flattened>`: signal adaptor, zero window of N
+//! frames, k x next() (sq = 1: next_squared()); output `2 out-bits..` per call, then `4 <count>`.
+//! fin = 0: the source is a counting closure (gen_mut: the given frames, then equilibrium; never
+//! exhausted), count = frames pulled.  fin = 1: the source is signal::from_iter over the finite frame
+//! list (through a counting iterator); `3 <is_exhausted>` is printed before the first call and after
+//! every call; count = items taken from the iterator.
 use dasp_verif_harness::*;
 use dasp_signal::rms::SignalRms;
 use dasp_signal::{self as signal, Signal};
 use std::cell::Cell;
 
-const NOSTD: i128 = 0;
 include!("../c11_body.rs");
 
 macro_rules! adriver {
     ($name:ident, $S:ty, $Fl:ty, $C:expr, $samp:ident, $flbits:ident) => {
-        fn $name(n: usize, sq: bool, k: usize, vals: &[i128]) -> Vec<String> {
+        fn $name(n: usize, sq: bool, k: usize, fin: bool, vals: &[i128]) -> Vec<String> {
             let frames: Vec<[$S; $C]> = vals
                 .chunks($C)
                 .map(|ch| {
@@ -25,6 +28,20 @@ macro_rules! adriver {
                 })
                 .collect();
             let cnt = Cell::new(0usize);
+            if fin {
+                let src = signal::from_iter(frames.iter().cloned().inspect(|_| cnt.set(cnt.get() + 1)));
+                let ring = Fixed::from(vec![[<$Fl>::default(); $C]; n].into_boxed_slice());
+                let mut r = src.rms(ring);
+                let mut out = Vec::new();
+                out.push(ob(3, &[r.is_exhausted() as u64]));
+                for _ in 0..k {
+                    let o = if sq { r.next_squared() } else { r.next() };
+                    out.push(ob(2, &o.iter().map(|x| $flbits(*x)).collect::<Vec<_>>()));
+                    out.push(ob(3, &[r.is_exhausted() as u64]));
+                }
+                out.push(ob(4, &[cnt.get() as u64]));
+                return out;
+            }
             let src = signal::gen_mut(|| {
                 let i = cnt.get();
                 cnt.set(i + 1);
@@ -63,7 +80,8 @@ fn run_a(line: &str) -> String {
     let parts: Vec<&str> = line.splitn(2, ';').collect();
     let head: Vec<&str> = parts[0].split_whitespace().collect();
     let h: Vec<i128> = head[1..].iter().map(|t| t.parse().unwrap()).collect();
-    let (fmt, chans, n, sq, k) = (h[0], h[2] as usize, h[3] as usize, h[4] == 1, h[5] as usize);
+    let (fmt, chans, n, sq, k, fin) = (h[0], h[2] as usize, h[3] as usize, h[4] == 1, h[5] as usize, h[6] == 1);
+    assert!(h[1] == build_nostd(), "case is for the other build configuration");
     let vals = nums(parts[1]);
     assert!(vals.len() % chans == 0);
     let f = match (fmt, chans) {
@@ -73,7 +91,7 @@ fn run_a(line: &str) -> String {
         (3, 1) => a_u8_1, (3, 2) => a_u8_2, (3, 3) => a_u8_3, (3, 4) => a_u8_4,
         _ => panic!("unsupported fmt/chans"),
     };
-    match catch(|| f(n, sq, k, &vals)) {
+    match catch(|| f(n, sq, k, fin, &vals)) {
         Ok(v) => v.join(";"),
         Err(c) => ob(8, &[c as u64]),
     }
